@@ -252,6 +252,9 @@ def get_item(st, obj, idx):
         if k == 'bytes':
             return Val(T.INT, z3.StrToCode(z3.SubString(obj.z, i, 1)))
         return Val(T.STR, z3.SubString(obj.z, i, 1))
+    if k == 'ref' and obj.t.name == 'bytearray':
+        d = st.read_field(obj.z, 'bytearray', 'data')
+        return get_item(st, d, idx)
     if k == 'ref':
         c = R.find_contract(obj.t.name, '__getitem__')
         if c is not None:
@@ -275,6 +278,22 @@ def get_slice(st, obj, lo, hi):
     if obj.t.kind == 'union':
         obj = E.concretize(st, obj)
     k = obj.t.kind
+    if k == 'ref' and obj.t.name == 'memoryview':
+        # a sub-view onto the same buffer
+        vlo = st.read_field(obj.z, 'memoryview', 'lo').z
+        vhi = st.read_field(obj.z, 'memoryview', 'hi').z
+        n = vhi - vlo
+        l = clamp(st, lo, n, z3.IntVal(0))
+        h = clamp(st, hi, n, n)
+        h = z3.If(h < l, l, h)
+        ref = st.new_ref('memoryview')
+        st.write_field(ref, 'memoryview', 'buf', st.read_field(obj.z, 'memoryview', 'buf'))
+        st.write_field(ref, 'memoryview', 'lo', Val(T.INT, vlo + l))
+        st.write_field(ref, 'memoryview', 'hi', Val(T.INT, vlo + h))
+        return Val(T.TRef('memoryview'), ref)
+    if k == 'ref' and obj.t.name == 'bytearray':
+        d = st.read_field(obj.z, 'bytearray', 'data')
+        return get_slice(st, d, lo, hi)
     if k in ('str', 'bytes'):
         n = z3.Length(obj.z)
         l = clamp(st, lo, n, z3.IntVal(0))
@@ -319,6 +338,18 @@ def set_item(st, obj, idx, val):
 
 def set_slice(st, obj, lo, hi, val):
     E = _ex()
+    if obj.t.kind == 'ref' and obj.t.name == 'bytearray':
+        d = st.read_field(obj.z, 'bytearray', 'data').z
+        n = z3.Length(d)
+        l = clamp(st, lo, n, z3.IntVal(0))
+        h = clamp(st, hi, n, n)
+        h = z3.If(h < l, l, h)
+        if val.t.kind != 'bytes':
+            raise Undecided('bytearray slice assignment of %r' % (val.t,))
+        nd = z3.Concat(z3.SubString(d, 0, l), val.z, z3.SubString(d, h, n - h))
+        E.check_frame(st, obj.z, 'bytearray', 'data')
+        st.write_field(obj.z, 'bytearray', 'data', Val(T.BYTES, nd))
+        return
     if obj.t.kind != 'list':
         raise Undecided('slice assignment on %r' % (obj.t,))
     et = obj.t.args[0]
@@ -763,7 +794,7 @@ _GLOBAL_FUNCS = ('len', 'isinstance', 'set', 'list', 'dict', 'tuple', 'sorted', 
                  'unchanged', 'index_of', 'str_index', 'subseq', 'substr', 'str_len', 'setv',
                  'union_of', 'same_elems', 'is_fresh', 'seq_map_eq', 'let', 'emp', 'char_at',
                  'is_digit_str', 'str_to_int', 'concat_seq', 'mkseq', 'is_list', 'store', 'dict_has', 'dict_get',
-                 'dict_keys', 'implies_all', 'remove_positions', 'trig', 'same', 'dict_index', 'allocated', 'ncalls', 'call_arg', 'call_result', 'in_timeout_scope', 'nraised', 'str_prefix', 'pure_IO_encrypted_of', 'py_lower', 'substr_after_last')
+                 'dict_keys', 'implies_all', 'remove_positions', 'trig', 'same', 'dict_index', 'allocated', 'ncalls', 'call_arg', 'call_result', 'in_timeout_scope', 'nraised', 'str_prefix', 'pure_IO_encrypted_of', 'py_lower', 'substr_after_last', 'py_int_ok', 'py_int_val')
 
 
 def global_object_val(st, nm):
@@ -839,6 +870,8 @@ def lookup_module_attr(st, mod, attr):
         k, v = _MODULE_ATTRS[(mod, attr)]
         return Val(T.INT, z3.IntVal(v))
     key = '%s.%s' % (mod, attr)
+    if mod in R.CLASSES:
+        return None           # Class.attr is resolved as an attribute of the class object
     if key in R.CONTRACTS:
         return Val(T.FN, FnV('func', key))
     if attr in R.CLASSES and mod in ('socket', 'struct', 'gevent', 'collections', 'abc', 'ssl',
